@@ -319,10 +319,18 @@ def exec_linsolve(case):
 def run_linsolve_point(acc, m, sA, sb, A, b, b2, cls, sig, point, solver, lda, counter):
     rhs_now = b
     x_first = None
-    for step in ('first', 'repeat', 'new_rhs'):
+    for step in ('first', 'repeat', 'new_rhs', 'new_shape'):
         if step == 'new_rhs':
             sb.state = b2.copy()
             rhs_now = b2
+        if step == 'new_shape':
+            # the same module is handed a right-hand side of another shape (one more load case / a single vector)
+            rs_ = point.get('rscale', 1.0)
+            n_ = A.shape[0]
+            cplx_ = np.iscomplexobj(b)
+            b3 = lm.rhs(n_, 'vec' if b.ndim == 2 and b.shape[1] > 1 else 'blk', cplx_, 0, off=211) * rs_
+            sb.state = b3.copy()
+            rhs_now = b3
         sA0, sb0 = snap(sA.state), snap(sb.state)
         try:
             acc.trans += 1
